@@ -90,6 +90,29 @@ package drpcmanager
 //@   site send:pkts assert [C01.packet-intact] sameSlice(arg0.Data, rpkt.Data) && arg0.ID == rpkt.ID && arg0.Kind == rpkt.Kind && arg0.Control == rpkt.Control
 //@   site (*Stream).Cancel assert [C02.cancel-current] arg0 != nil && arg1 != nil
 //@   site (*Manager).terminate assert [C05.nonnil] arg1 != nil
+//@   ghost entry rerr = nil
+//@   ghost after:(*Reader).ReadPacketUsing rerr = ret1
+//@   ghost entry herr = nil
+//@   ghost after:(*Stream).HandlePacket herr = ret
+//@   ghost loop:1 herr = nil
+//@   check [C05.error-terminates] rerr != nil || herr != nil ==> eventCount("call:(*Manager).terminate") == 1
+//@   ghost entry handled = false
+//@   ghost loop:1 handled = false
+//@   ghost after:(*Stream).HandlePacket handled = true
+//@   ghost call:send:pkts handled = true
+//@   ghost entry lc = nil
+//@   ghost after:(*streamBuffer).Get lc = ret
+//@   ghost entry cid = 0
+//@   ghost after:(*Stream).ID cid = ret
+//@   ghost entry wasTerm = false
+//@   ghost loop:2 wasTerm = false
+//@   ghost after:(*Stream).IsTerminated wasTerm = ret
+//@   ghost entry cancelled = false
+//@   ghost loop:2 cancelled = false
+//@   ghost after:(*Stream).Cancel cancelled = true
+//@   loop 1 step [C02.no-silent-drop] handled || (lc != nil && rpkt.ID.Stream < cid)
+//@   site send:pkts assert [C02.forward-only-invokes] (rpkt.Kind == drpcwire.KindInvoke || rpkt.Kind == drpcwire.KindInvokeMetadata) && (lc == nil || rpkt.ID.Stream > cid)
+//@   site send:pkts assert [C02.old-stream-cancelled] lc == nil || wasTerm || cancelled
 
 //@ func (*Manager).Close
 //@   props C12
